@@ -33,7 +33,43 @@ const (
 	kPtrLoop    = "ptrloop"    // owner name is a compression pointer to itself
 	kMidClose   = "midclose"   // connection closed in the middle of a message
 	kSilence    = "silence"    // nothing is sent any more; the connection stays open
+	kRaw        = "raw"        // arbitrary bytes written to the stream as they are (no framing added)
+	kMutated    = "mutated"    // a well-formed response with byte-level mutations applied after packing
 )
+
+// mut is one byte-level mutation of a packed message.
+type mut struct {
+	Op  int // 0 flip bit, 1 set byte, 2 truncate, 3 insert byte, 4 delete byte, 5 overwrite a header count
+	Off int
+	Val byte
+}
+
+func applyMuts(b []byte, ms []mut) []byte {
+	b = append([]byte(nil), b...)
+	for _, m := range ms {
+		if len(b) == 0 {
+			break
+		}
+		off := m.Off % len(b)
+		switch m.Op {
+		case 0:
+			b[off] ^= 1 << (m.Val % 8)
+		case 1:
+			b[off] = m.Val
+		case 2:
+			b = b[:off]
+		case 3:
+			b = append(b[:off], append([]byte{m.Val}, b[off:]...)...)
+		case 4:
+			b = append(b[:off], b[off+1:]...)
+		case 5:
+			if len(b) >= 12 {
+				b[4+2*(m.Off%4)], b[5+2*(m.Off%4)] = 0, m.Val%8
+			}
+		}
+	}
+	return b
+}
 
 // item is one scripted action of the upstream on one connection (or one datagram in the UDP check).
 type item struct {
@@ -45,6 +81,9 @@ type item struct {
 	RK      int   // response kind (rk* constant) of an acceptable response; evidence label only
 	WrongID uint16
 	DelayMs int64
+	Raw     []byte // kRaw
+	Muts    []mut  // kMutated
+	LenAdj  int    // kMutated: added to the TCP length field
 }
 
 func (it *item) acceptable() bool { return it.Kind == kResp }
@@ -71,6 +110,7 @@ type connObs struct {
 	EndAt      time.Time // when the responder finished (hang-up seen, or clean close done)
 	Aborted    bool      // the lookup returned while the responder was still delaying an item
 	Addr       conn.Addr
+	Bytes      []byte // every byte the resolver consumed on this connection
 }
 
 var errScriptedDial = errors.New("scripted dial failure")
@@ -83,6 +123,9 @@ type tcpUpstream struct {
 	ids    map[int]uint16 // family -> ID observed in this lookup's queries
 	stop   chan struct{}
 	wg     sync.WaitGroup
+	// idSource, if set, returns the query IDs a UDP upstream of the same lookup has seen
+	// (a family answered over UDP is not asked again over TCP).
+	idSource func() map[int]uint16
 }
 
 type pipeConn struct{ net.Conn }
@@ -120,6 +163,11 @@ func (u *tcpUpstream) DialStream(ctx context.Context, addr conn.Addr, payload []
 	idx := len(u.obs)
 	u.obs = append(u.obs, o)
 	o.Queries, o.QueryErr = parseTCPQueries(payload)
+	if u.idSource != nil {
+		for f, id := range u.idSource() {
+			u.ids[f] = id
+		}
+	}
 	u.noteQueries(o.Queries)
 	var cs connScript
 	if u.script != nil && idx < len(u.script.Conns) {
@@ -136,29 +184,25 @@ func (u *tcpUpstream) DialStream(ctx context.Context, addr conn.Addr, payload []
 	return pipeConn{cl}, nil
 }
 
-// wrongID returns an ID that differs from both query IDs of the lookup.
-func (u *tcpUpstream) wrongID(cand uint16) uint16 {
-	for cand == u.ids[4] || cand == u.ids[6] {
-		cand += 0x0101
-	}
-	return cand
-}
-
-// wire builds the message bytes of an item (without TCP framing); ok=false for items that are
-// not a single complete message (zerolen, midclose, silence).
-func (u *tcpUpstream) wire(it *item) []byte {
+// wire builds the message bytes of an item (without TCP framing) for a lookup of name whose
+// two queries carried the IDs in ids (family -> ID, as observed by the upstream).
+func wire(it *item, name string, ids map[int]uint16) []byte {
 	m := it.Msg
-	m.QName = u.name
+	m.QName = name
 	if it.Fam == 6 {
 		m.QType = tAAAA
-		m.ID = u.ids[6]
+		m.ID = ids[6]
 	} else {
 		m.QType = tA
-		m.ID = u.ids[4]
+		m.ID = ids[4]
 	}
 	switch it.Kind {
 	case kWrongID:
-		m.ID = u.wrongID(it.WrongID)
+		// an ID that differs from both query IDs of the lookup
+		m.ID = it.WrongID
+		for m.ID == ids[4] || m.ID == ids[6] {
+			m.ID += 0x0101
+		}
 		return m.pack()
 	case kShort:
 		return prngBytes(it.Seed, max(1, it.N%12))
@@ -176,14 +220,20 @@ func (u *tcpUpstream) wire(it *item) []byte {
 
 func (u *tcpUpstream) tcpBytes(it *item) []byte {
 	switch it.Kind {
+	case kRaw:
+		return it.Raw
+	case kMutated:
+		b := frame(applyMuts(wire(it, u.name, u.ids), it.Muts))
+		binary.BigEndian.PutUint16(b, uint16(int(binary.BigEndian.Uint16(b))+it.LenAdj))
+		return b
 	case kZeroLen:
 		return []byte{0, 0}
 	case kMidClose:
-		full := frame(u.wire(it))
+		full := frame(wire(it, u.name, u.ids))
 		k := 1 + it.N%(len(full)-1)
 		return full[:k]
 	default:
-		return frame(u.wire(it))
+		return frame(wire(it, u.name, u.ids))
 	}
 }
 
@@ -212,7 +262,12 @@ func (u *tcpUpstream) serve(c net.Conn, cs connScript, o *connObs) {
 			}
 		}
 		b := u.tcpBytes(it)
+		if len(b) == 0 {
+			o.Consumed = i + 1
+			continue
+		}
 		n, err := c.Write(b)
+		o.Bytes = append(o.Bytes, b[:n]...)
 		if err != nil || n < len(b) {
 			o.FailIdx, o.FailN = i, n
 			return
